@@ -222,6 +222,44 @@ def run(ctx):
             reach = om.reachable_blocks(start=s, cut_edges=g_rx)
             ctx.check(om.point_of(r)[0] not in reach, R3, 'matches:regex-method-filter-passed', 'rule with a method expression matches without testing it', om.where)
 
+    # classification of the method filter at registration: the filter is treated as an exact method name (compared literally) only if
+    # every character was looked at; the scan is left early only on a character outside 'A'..'Z'
+    octors = [f for f in P.fns.values() if f.kind == 'ctor' and (f.record or '').endswith('::option') and f.file.endswith('/src/url_dispatcher.cpp') and len(f.params) == 2 and f.body is not None and f.body >= 0]
+    ctx.require(len(octors) == 1, 'C20.R3: option(expr, method) constructor not found')
+    oc = octors[0]
+    mp_ = q.param_by_index(oc, 1)
+    ls = [L for L in q.loops(oc) if mp_ in oc.subtree_refs(L)]
+    ctx.check(len(ls) == 1, R3, 'option:classifies-method-in-one-scan', 'expected one scan over the method filter', oc.where)
+    for L in ls:
+        body = oc.N(L)['body']
+
+        def outside_upper(atom, pol):
+            n = oc.N(atom)
+            if n['k'] != 'BinaryOperator' or n.get('op') not in ('<', '<=', '>', '>=', '==', '!='):
+                return False
+            lc, rc_ = oc.const_value(n['ch'][0]), oc.const_value(n['ch'][1])
+            if (lc is None) == (rc_ is None):
+                return False
+            op = n['op']
+            holds = []
+            for c in range(256):
+                a_, b_ = (lc, c) if lc is not None else (c, rc_)
+                v = {'<': a_ < b_, '<=': a_ <= b_, '>': a_ > b_, '>=': a_ >= b_, '==': a_ == b_, '!=': a_ != b_}[op]
+                if v == pol:
+                    holds.append(c)
+            return bool(holds) and all(not (65 <= c <= 90) for c in holds)
+        g_out = oc.gate_edges(outside_upper)
+        leaves = [j for j in oc.walk(body) if oc.N(j)['k'] in ('BreakStmt', 'ReturnStmt', 'GotoStmt') and (oc.N(j)['k'] != 'BreakStmt' or q.enclosing_loops(oc, j)[0] == L)]
+        for k, j in enumerate(leaves):
+            ctx.check(bool(g_out) and oc.only_through(j, g_out), R3, 'option:scan-left-early#%d:only-on-a-non-upper-case-char' % k,
+                      'the scan over the method filter stops although the character is in A..Z: a filter such as "PUT|POST" is then compared literally instead of as an expression', oc.loc(j))
+        cl = q.counting_loop(oc, L)
+        if cl is not None:
+            full = cl['start'] == 0 and cl['step'] == 1 and cl['op'] in ('<', '!=') and mp_ in oc.subtree_refs(cl['bound']) and any(q.short_of(oc.bcallee(c) or '') in ('size', 'length') for c in oc.calls(cl['bound']))
+            ctx.check(full, R3, 'option:scan-covers-whole-filter', 'the classification does not look at every character of the method filter', oc.loc(L))
+        ws = [w for w in q.field_writes(oc, 'option::match_method_') if oc.contains(body, w)]
+        ctx.check(bool(ws) and all(oc.only_through(w, g_out) for w in ws), R3, 'option:expression-mode-only-on-a-non-upper-case-char', 'mode switched to "expression" for an all upper-case filter or never', oc.loc(L))
+
     # ---------------- R4
     mps = [f for f in P.by_bname.get('cppcms::mount_point::match', []) if 'const char *' in f.id]
     ctx.require(len(mps) == 1, 'C20.R4: mount_point::match(char const*,...) not found')
@@ -386,3 +424,22 @@ def run(ctx):
     ctx.floor(R4, 18)
     ctx.floor(R5, 8)
     ctx.trust('PCRE semantics of PCRE_ANCHORED and \\z')
+
+    # ---------------- R7 keyword defaults live in the root-most mapper only
+    R7 = ctx.rule('C20.R7', 'url_mapper keyword defaults (set_value): the table is read and written through the root-most mapper only; a mounted child\'s own table is only drained by mount()')
+    n7 = 0
+    for f in um:
+        for i in f.all_nodes():
+            n = f.N(i)
+            if n['k'] != 'MemberExpr' or not model.strip_targs(n.get('ref') or '').endswith('data::helpers') or not n['ch']:
+                continue
+            base = n['ch'][0]
+            # local references / pointers bound once stand for their initialiser (`data &mounted = *app.mapper().d;`)
+            via_root = any(q.short_of(f.bcallee(c) or '') in ('root_mapper', 'topmost') for c in q.expr_calls_deep(f, base))
+            ptypes = dict((pp_['ref'], f.types[pp_['t']] or '') for pp_ in f.params)
+            of_child = any(r.startswith('p:') and 'application' in ptypes.get(r, '') for r in q.deep_refs(f, base))
+            n7 += 1
+            ctx.check(via_root or (of_child and f.short == 'mount'), R7, '%s:helpers#%d:root-most-table' % (f.short, n7),
+                      'keyword defaults are stored in / read from a mapper that is not the root-most one: real_map() never looks there', f.loc(i))
+    ctx.require(n7 >= 4 or ctx.violations, 'C20.R7: accesses to url_mapper::data::helpers not found')
+    ctx.floor(R7, 4)
